@@ -231,3 +231,37 @@ Theorem C03_trie_memory_is_forest_lookup : forall (array : bool) cfg n (F : fore
         end
   end.
 Proof. exact trie_memory_is_forest_lookup. Qed.
+
+(* ---- ... and from a TABLE: the forest is obtained by inserting the keys in any order (TrieLayout.of_table; siblings kept sorted).
+   For every table with distinct, prefix-closed, non-empty keys over word ids 0 .. V-1 (exactly those ids are unigrams), 32-bit
+   payloads, keys no longer than the order n and fewer than 2^57 key words in all: the memory walk finds an n-gram exactly when the
+   table lists it and returns the table's payload (probability with the sign forced on beyond unigrams, back-off below order n).
+   `trie_mem` (C03/TrieImage.v) is this construction applied to the trie table of LM/Load.v; its bytes are what the trie-image
+   stream compares with the search structure of the binary files. *)
+From Kenlm Require Import C03.TrieTableProofs C03.TrieTableEnd C03.TrieImage LM.Defs.
+Theorem C03_trie_memory_is_table : forall (array : bool) cfg n V (t : list (list Z * pb)),
+  (2 <= n)%nat -> 0 <= V < 2 ^ 32 -> 0 <= cfg ->
+  table_ok pb t -> (forall w, In [w] (map fst t) <-> 0 <= w < V) ->
+  Forall (fun kv => Forall (fun w => 0 <= w <= V) (fst kv) /\ pv_ok (snd kv) /\ (length (fst kv) <= n)%nat) t ->
+  Z.of_nat (key_words t) < 2 ^ 57 ->
+  let mem := mk_trie array cfg (built pb n (of_table pb (0, 0) t)) in
+  forall k, k <> [] -> Forall (fun w => 0 <= w <= V) k ->
+  match assoc pb t k with
+  | None => twalk array mem k = Some None
+  | Some v =>
+      exists got, twalk array mem k = Some (Some got) /\
+        match k with
+        | [_] => fst (fst got) = v
+        | _ => fst (fst (fst got)) = norm_p (fst v) /\ (Nat.eqb (length k) n = false -> snd (fst (fst got)) = snd v)
+        end
+  end.
+Proof. exact trie_memory_is_table. Qed.
+
+Theorem C03_trie_mem_is_that_construction : forall array cfg n (t : atable) pz,
+  trie_mem array cfg n t pz =
+  mk_trie array cfg (built pb n (of_table pb (0, 0) (map (fun ke => (zkey (fst ke), entry_pb (existsb (key_eqb (fst ke)) pz) (snd ke))) t))).
+Proof. reflexivity. Qed.
+
+(* the float bit patterns: entry_pb yields 32-bit patterns for every score of magnitude below 2^24 / 64 *)
+Theorem C03_f32_of_units_range : forall z, - 2 ^ 24 < z < 2 ^ 24 -> 0 <= f32_of_units z < 2 ^ 32.
+Proof. exact f32_of_units_range. Qed.
